@@ -39,8 +39,9 @@ fn main() -> Result<(), Box<dyn Error>> {
                 }
             }
         }
-        xml_xpath::eval::model::Value::Number(v) => {
-            println!("{}", v);
+        v @ xml_xpath::eval::model::Value::Number(_) => {
+            // As the XPath function string() converts a number (Infinity, not inf).
+            println!("{}", String::try_from(&v).map_err(|v| v.to_string())?);
         }
         xml_xpath::eval::model::Value::Text(v) => {
             println!("{}", v);
